@@ -837,4 +837,261 @@ example : (exLoader.serve exPerm).2.len exPerm = .ok 1 := by
     EpochSampler.everyNth, exLoader, exPerm, exCfg]
   rfl
 
+/-! ## loaders: several live iterators, `len()` and look-ups in between (value semantics)
+
+`Session` (in `Model/Batching.lean`) = the loader object + the `iter(loader)` objects created so
+far. A script is any sequence of: a full pass, `loader.epoch = e`, `it_k = iter(loader)`,
+`next(it_k)`, `len(loader)`, `sampler.get_samples_for_epoch(e)`. In the model an iterator is a
+VALUE: the list of batches the pass had at the moment its first batch was requested (that is when
+the batch sampler's generator asks the epoch sampler and `sampler.epoch` is bumped), plus a cursor.
+The theorems below say that nothing another operation does can change what an iterator delivers.
+That the real objects behave like this (a fresh permutation per request, no buffer shared between
+requests) is what the correspondence checks, it is not proved. -/
+
+/-- **C14_live_iter_value**: once iterator `k` has started with value `v` (`j` batches handed out),
+then after ANY script - other iterators created / advanced / exhausted, `len()`, look-ups of other
+epochs, epoch assignments, full passes - the calls `next(it_k)` in that script return
+`nextOf v j, nextOf v (j+1), ..` in order, and the iterator still holds `v`; its cursor moved by
+exactly the number of its own `next` calls. -/
+theorem C14_live_iter_value (perm : Nat → List Nat) : ∀ (ops : List IOp) (s : Session) (k : Nat)
+    (v : PassVal) (j : Nat), s.iters[k]? = some ⟨some v, j⟩ →
+    deliveredBy k (Session.exec perm ops s).1
+      = (List.range (ops.count (.next k))).map (fun i => Out.batch (nextOf v (j + i))) ∧
+    (Session.exec perm ops s).2.iters[k]? = some ⟨some v, j + ops.count (.next k)⟩ := by
+  intro ops
+  induction ops with
+  | nil => intro s k v j hk; exact ⟨rfl, hk⟩
+  | cons op ops ih =>
+    intro s k v j hk
+    by_cases hop : op = .next k
+    · subst hop
+      have hlt : k < s.iters.length := by
+        rcases List.getElem?_eq_some_iff.mp hk with ⟨h, _⟩; exact h
+      have hs := Session.step_next_started perm s k v j hk
+      have hk' : (Session.step perm (.next k) s).2.iters[k]? = some ⟨some v, j + 1⟩ := by
+        rw [hs]; show (s.iters.set k _)[k]? = _
+        rw [List.getElem?_set_self hlt]
+      obtain ⟨i1, i2⟩ := ih (Session.step perm (.next k) s).2 k v (j + 1) hk'
+      refine ⟨?_, ?_⟩
+      · show deliveredBy k ((IOp.next k, (Session.step perm (.next k) s).1)
+            :: (Session.exec perm ops (Session.step perm (.next k) s).2).1) = _
+        rw [deliveredBy_cons_self, i1, hs, List.count_cons_self, List.range_succ_eq_map]
+        simp only [List.map_cons, List.map_map, Nat.add_zero]
+        congr 1
+        apply List.map_congr_left
+        intro i _
+        simp only [Function.comp]
+        congr 2
+        omega
+      · show (Session.exec perm ops (Session.step perm (.next k) s).2).2.iters[k]? = _
+        rw [i2, List.count_cons_self]
+        have e : j + 1 + List.count (IOp.next k) ops = j + (List.count (IOp.next k) ops + 1) := by omega
+        rw [e]
+    · have hk' := Session.step_other perm op s k _ hk hop
+      obtain ⟨i1, i2⟩ := ih (Session.step perm op s).2 k v j hk'
+      have hc : (op :: ops).count (.next k) = ops.count (.next k) := by
+        rw [List.count_cons_of_ne]; exact fun h => hop h
+      refine ⟨?_, ?_⟩
+      · show deliveredBy k ((op, (Session.step perm op s).1)
+            :: (Session.exec perm ops (Session.step perm op s).2).1) = _
+        rw [deliveredBy_cons_other k op _ _ hop, i1, hc]
+      · show (Session.exec perm ops (Session.step perm op s).2).2.iters[k]? = _
+        rw [i2, hc]
+
+
+
+/-- **C14_session_epoch** (which operation touches the loader, and how): `loader.epoch = e` sets the
+counter; a full pass and the FIRST `next` of an iterator advance it by one; `iter(loader)`, `len()`,
+`get_samples_for_epoch`, a `next` on a started (or exhausted) iterator leave the loader exactly as
+it was - `len()` and the look-up leave the whole session as it was. -/
+theorem C14_session_epoch (perm : Nat → List Nat) (s : Session) :
+    (∀ e, (Session.step perm (.setEpoch e) s).2.loader = s.loader.setEpoch e) ∧
+    (Session.step perm .serve s).2.loader = s.loader.setEpoch (s.loader.epoch + 1) ∧
+    (Session.step perm .newIter s).2.loader = s.loader ∧
+    Session.step perm .len s = (.len (s.loader.len perm), s) ∧
+    (∀ e, Session.step perm (.peek e) s
+        = (.samples (EpochSampler.samples s.loader.sampler.cfg (perm e)), s)) ∧
+    (∀ k, s.iters[k]? = none → Session.step perm (.next k) s = (.noIter, s)) ∧
+    (∀ k v j, s.iters[k]? = some ⟨some v, j⟩ → (Session.step perm (.next k) s).2.loader = s.loader) ∧
+    (∀ k p, s.iters[k]? = some ⟨none, p⟩ →
+        (Session.step perm (.next k) s).2.loader = s.loader.setEpoch (s.loader.epoch + 1)) := by
+  refine ⟨fun _ => rfl, rfl, rfl, rfl, fun _ => rfl, ?_, ?_, ?_⟩
+  · intro k hk
+    unfold Session.step
+    simp only [hk]
+  · intro k v j hk
+    rw [Session.step_next_started perm s k v j hk]
+  · intro k p hk
+    rw [Session.step_next_fresh perm s k p hk]
+    rfl
+
+
+/-- **C14_iter_epoch**: an iterator created at any time and not yet asked for a batch during `pre`
+delivers - over the whole rest of the script, whatever else happens in `pre` and `post` - exactly
+the batches of the epoch the loader stands at when its first batch is requested:
+`nextOf (epochBatches cfg samplerCfg (perm e)) 0, 1, 2, ..`, one per `next` call; and that first
+request moves `loader.epoch` to `e + 1`. -/
+theorem C14_iter_epoch (perm : Nat → List Nat) (s : Session) (k p : Nat) (pre post : List IOp)
+    (hk : s.iters[k]? = some ⟨none, p⟩) (hpre : IOp.next k ∉ pre) :
+    let l := (Session.exec perm pre s).2.loader
+    deliveredBy k (Session.exec perm (pre ++ IOp.next k :: post) s).1
+      = (List.range (1 + post.count (.next k))).map
+          (fun i => Out.batch (nextOf (epochBatches s.loader.cfg s.loader.sampler.cfg (perm l.epoch)) i)) ∧
+    (Session.exec perm (pre ++ [IOp.next k]) s).2.loader.epoch = l.epoch + 1 := by
+  intro l
+  obtain ⟨f1, f2⟩ := Session.exec_fresh perm pre s k _ hk hpre
+  obtain ⟨c1, c2⟩ := Session.exec_fixed perm pre s
+  let s' := (Session.exec perm pre s).2
+  have hlt : k < s'.iters.length := by
+    rcases List.getElem?_eq_some_iff.mp f2 with ⟨h, _⟩; exact h
+  have hs := Session.step_next_fresh perm s' k p f2
+  have hv : (s'.loader.serve perm).1 = epochBatches s.loader.cfg s.loader.sampler.cfg (perm l.epoch) := by
+    rw [(Loader.serve_spec perm s'.loader).1, c1, c2]
+  refine ⟨?_, ?_⟩
+  · rw [Session.exec_append, deliveredBy_append, f1, List.nil_append]
+    show deliveredBy k ((IOp.next k, (Session.step perm (.next k) s').1)
+        :: (Session.exec perm post (Session.step perm (.next k) s').2).1) = _
+    have hk' : (Session.step perm (.next k) s').2.iters[k]? = some ⟨some (s'.loader.serve perm).1, 1⟩ := by
+      rw [hs]; show (s'.iters.set k _)[k]? = _
+      rw [List.getElem?_set_self hlt]
+    rw [deliveredBy_cons_self, (C14_live_iter_value perm post _ k _ 1 hk').1, hs, hv,
+      Nat.add_comm 1, List.range_succ_eq_map]
+    simp only [List.map_cons, List.map_map]
+    congr 1
+    apply List.map_congr_left
+    intro i _
+    simp only [Function.comp]
+    congr 2
+    omega
+  · rw [Session.exec_append]
+    show (Session.step perm (.next k) s').2.loader.epoch = _
+    rw [hs]
+    rfl
+
+
+/-- **C14_seed_epoch_interleaved** (`C14_seed_epoch` for interleaved scripts): after ANY script `pre`
+on a loader started at ANY epoch - with any number of iterators still alive -, `loader.epoch = e;
+it = iter(loader); next(it)` followed by ANY script `post` makes `it` deliver the batches of
+`epochBatches cfg samplerCfg (perm e)`, one per `next(it)`: a function of the constructor
+arguments, (seed, epoch) and the number of calls, of nothing else. Two runs with different `pre`,
+`post`, `e₀` therefore see identical batches for identical (seed, epoch). -/
+theorem C14_seed_epoch_interleaved (perm : Nat → List Nat) (cfg : LoaderCfg) (sc : EpochSampler.Config)
+    (pre post : List IOp) (e₀ e : Nat) :
+    let s := (Session.exec perm pre (Session.new ⟨cfg, ⟨sc, e₀⟩⟩)).2
+    let k := s.iters.length
+    deliveredBy k (Session.exec perm (.setEpoch e :: .newIter :: .next k :: post) s).1
+      = (List.range (1 + post.count (.next k))).map
+          (fun i => Out.batch (nextOf (epochBatches cfg sc (perm e)) i)) := by
+  intro s k
+  obtain ⟨c1, c2⟩ := Session.exec_fixed perm pre (Session.new ⟨cfg, ⟨sc, e₀⟩⟩)
+  let s2 : Session := ⟨s.loader.setEpoch e, s.iters ++ [⟨none, 0⟩]⟩
+  have hk : s2.iters[k]? = some ⟨none, 0⟩ := by
+    show (s.iters ++ [_])[s.iters.length]? = _
+    simp
+  have h := (C14_iter_epoch perm s2 k 0 [] post hk (by simp)).1
+  simp only [List.nil_append] at h
+  show deliveredBy k ((IOp.setEpoch e, _) :: (IOp.newIter, _) :: (Session.exec perm (.next k :: post) s2).1) = _
+  rw [deliveredBy_cons_other _ _ _ _ (by simp), deliveredBy_cons_other _ _ _ _ (by simp), h]
+  have e1 : s2.loader.cfg = cfg := c1
+  have e2 : s2.loader.sampler.cfg = sc := c2
+  rw [e1, e2]
+  rfl
+
+
+/-- **C14_pass_complete**: a pass with `n` batches consumed to its end: `n + 1` calls of `next` hand
+out the `n` batches in order, then `StopIteration` (so with `C14_seed_epoch_interleaved` an
+iterator advanced at least `n + 1` times has delivered the whole epoch, however the calls were
+interleaved with other operations). -/
+theorem C14_pass_complete (bs : List (List Nat)) :
+    (List.range (bs.length + 1)).map (nextOf (.ok (bs, none)))
+      = bs.map (fun b => .ok (some b)) ++ [.ok none] := by
+  apply List.ext_getElem?
+  intro i
+  simp only [List.getElem?_map, List.getElem?_append]
+  by_cases h : i < bs.length
+  · have h' : i < bs.length + 1 := by omega
+    simp [h, h', nextOf]
+  · by_cases h2 : i = bs.length
+    · subst h2
+      simp [nextOf]
+    · have h' : ¬ i < bs.length + 1 := by omega
+      have h3 : bs.length + 1 ≤ i := by omega
+      simp [h, h']
+      omega
+
+
+/-- **C14_len_interleaved** (`C14_len_tracks_epoch` for interleaved scripts): at ANY point of ANY
+script - iterators alive and half consumed - `len(loader)` is the number of batches of the pass
+that would start now, and asking leaves no trace (the session is returned unchanged). -/
+theorem C14_len_interleaved (perm : Nat → List Nat) (l : Loader) (pre : List IOp)
+    (bs : List (List Nat)) (hB : 0 < l.cfg.B) (hwf : l.sampler.cfg.Wf)
+    (hp : ∀ e, (perm e).length = l.sampler.cfg.total) :
+    let s := (Session.exec perm pre (Session.new l)).2
+    (s.loader.serve perm).1 = .ok (bs, none) →
+    Session.step perm .len s = (.len (.ok bs.length), s) := by
+  intro s h
+  obtain ⟨h1, h2⟩ := Session.exec_fixed perm pre (Session.new l)
+  have : s.loader.len perm = .ok bs.length := by
+    apply C14_len_epoch perm _ bs
+    · rw [h1]; exact hB
+    · rw [h2]; exact hwf
+    · rw [h2]; exact hp _
+    · exact h
+  show (Out.len (s.loader.len perm), s) = _
+  rw [this]
+
+
+/-- **C14_session_refines_exec**: a script of full passes and epoch assignments only is the
+`Loader.exec` the earlier theorems speak about (same final loader, same passes; iterators that are
+alive are not touched). -/
+theorem C14_session_refines_exec (perm : Nat → List Nat) : ∀ (ops : List Op) (l : Loader) (its : List LiveIter),
+    (Session.exec perm (ops.map IOp.ofOp) ⟨l, its⟩).2 = ⟨(Loader.exec perm ops l).2, its⟩ ∧
+    passesOf (Session.exec perm (ops.map IOp.ofOp) ⟨l, its⟩).1 = (Loader.exec perm ops l).1 := by
+  intro ops
+  induction ops with
+  | nil => intro l its; exact ⟨rfl, rfl⟩
+  | cons op ops ih =>
+    intro l its
+    cases op with
+    | serve =>
+      obtain ⟨i1, i2⟩ := ih (l.serve perm).2 its
+      refine ⟨i1, ?_⟩
+      show passesOf ((IOp.serve, Out.pass (l.serve perm).1)
+          :: (Session.exec perm (ops.map IOp.ofOp) ⟨(l.serve perm).2, its⟩).1)
+        = (l.serve perm).1 :: (Loader.exec perm ops (l.serve perm).2).1
+      rw [← i2]
+      rfl
+    | setEpoch e =>
+      obtain ⟨i1, i2⟩ := ih (l.setEpoch e) its
+      refine ⟨i1, ?_⟩
+      show passesOf ((IOp.setEpoch e, Out.unit)
+          :: (Session.exec perm (ops.map IOp.ofOp) ⟨l.setEpoch e, its⟩).1)
+        = (Loader.exec perm ops (l.setEpoch e)).1
+      rw [← i2]
+      rfl
+
+
+/-! ### the hypotheses are satisfiable: the loader of the previous example (rank 1 of 3; epoch 0
+has the batches `[[1], [4]]`, epoch 1 has `[[2, 3]]`), two iterators advanced alternately with
+`len()`, a look-up and an epoch assignment in between. -/
+def exScript : List IOp :=
+  [.newIter, .next 0, .len, .peek 1, .newIter, .next 1, .setEpoch 0, .next 0, .next 1, .next 0, .len]
+
+/-- iterator 0 started at epoch 0: its two batches, then StopIteration -/
+example : deliveredBy 0 (Session.exec exPerm exScript (Session.new exLoader)).1
+    = [.batch (.ok (some [1])), .batch (.ok (some [4])), .batch (.ok none)] := by
+  simp [exScript, Session.exec, Session.step, Session.new, deliveredBy, Loader.serve, Loader.setEpoch,
+    EpochSampler.iter, EpochSampler.samples, EpochSampler.islice, EpochSampler.everyNth, exLoader,
+    exPerm, exCfg]
+  decide
+/-- iterator 1 started when the loader stood at epoch 1 -/
+example : deliveredBy 1 (Session.exec exPerm exScript (Session.new exLoader)).1
+    = [.batch (.ok (some [2, 3])), .batch (.ok none)] := by
+  simp [exScript, Session.exec, Session.step, Session.new, deliveredBy, Loader.serve, Loader.setEpoch,
+    EpochSampler.iter, EpochSampler.samples, EpochSampler.islice, EpochSampler.everyNth, exLoader,
+    exPerm, exCfg]
+  decide
+example : (Session.new exLoader).iters[0]? = none := rfl
+example : IOp.next 0 ∉ [IOp.len, IOp.peek 1, IOp.newIter, IOp.next 1] := by decide
+
 end PdtVerif.Batching
